@@ -452,6 +452,34 @@ theorem addCards_skel (m : Mem) (nc pseq : Nat) : SkelLex (m.addCards nc pseq) m
   · exact SkelLex.refl m
   · exact SkelLex.of_eq rfl rfl rfl
 
+/-- the accepted branch of `putTail` -/
+theorem putTail_accept (m : Mem) (a : PutArgs) (sup reuse : Option Nat) (t : Trace) (hi : Inv m)
+    (hsup : ∀ x, sup = some x → x < m.frames.length) (hreu : ∀ x, reuse = some x → x < m.frames.length) :
+    Inv ((((m.appendPut a sup reuse).afterAppend t).addCards a.nc (m.seq + 1)), Out.seq (m.seq + 1)).1 ∧
+    (((((m.appendPut a sup reuse).afterAppend t).addCards a.nc (m.seq + 1)), Out.seq (m.seq + 1)).2.isAck = true →
+        abs ((((m.appendPut a sup reuse).afterAppend t).addCards a.nc (m.seq + 1)), Out.seq (m.seq + 1)).1
+          = sApply (abs m) (putRecords m.seq a sup reuse)) ∧
+    (((((m.appendPut a sup reuse).afterAppend t).addCards a.nc (m.seq + 1)), Out.seq (m.seq + 1)).2.isAck = false →
+        abs ((((m.appendPut a sup reuse).afterAppend t).addCards a.nc (m.seq + 1)), Out.seq (m.seq + 1)).1 = abs m) := by
+  have hf : (m.appendPut a sup reuse).frames = m.frames := rfl
+
+  have hp : (m.appendPut a sup reuse).pending = m.pending ++ putRecords m.seq a sup reuse := rfl
+  have hpi : (m.appendPut a sup reuse).pendingInserts = m.pendingInserts + (putRecords m.seq a sup reuse).length := rfl
+  have hi1 : Inv (m.appendPut a sup reuse) := by
+    constructor
+    · rw [hf, hp]
+      intro r hr
+      rcases List.mem_append.mp hr with hr | hr
+      · exact hi.ok r hr
+      · exact allOk_putRecords _ _ _ _ _ hsup hreu r hr
+    · rw [hpi, hp, countInserts_append, countInserts_putRecords, hi.pi]
+  have ha1 : abs (m.appendPut a sup reuse) = sApply (abs m) (putRecords m.seq a sup reuse) := by
+    unfold Mv.Core.abs; rw [hf, hp, sApply_append]
+  have hc := addCards_skel ((m.appendPut a sup reuse).afterAppend t) a.nc (m.seq + 1)
+  refine ⟨hc.inv (afterAppend_inv _ t hi1), fun _ => ?_, fun h => by simp [Out.isAck] at h⟩
+  show abs (((m.appendPut a sup reuse).afterAppend t).addCards a.nc (m.seq + 1)) = _
+  rw [hc.abs, afterAppend_abs _ t hi1, ha1]
+
 /-- the effect `putTail` has on the abstract state -/
 theorem putTail_sim (m : Mem) (a : PutArgs) (sup reuse : Option Nat) (t : Trace) (hi : Inv m)
     (hsup : ∀ x, sup = some x → x < m.frames.length) (hreu : ∀ x, reuse = some x → x < m.frames.length) :
@@ -462,23 +490,9 @@ theorem putTail_sim (m : Mem) (a : PutArgs) (sup reuse : Option Nat) (t : Trace)
   unfold Mem.putTail
   split
   · exact ⟨hi, fun h => by simp [Out.isAck] at h, fun _ => rfl⟩
-  · have hf : (m.appendPut a sup reuse).frames = m.frames := rfl
-    have hp : (m.appendPut a sup reuse).pending = m.pending ++ putRecords m.seq a sup reuse := rfl
-    have hpi : (m.appendPut a sup reuse).pendingInserts = m.pendingInserts + (putRecords m.seq a sup reuse).length := rfl
-    have hi1 : Inv (m.appendPut a sup reuse) := by
-      constructor
-      · rw [hf, hp]
-        intro r hr
-        rcases List.mem_append.mp hr with hr | hr
-        · exact hi.ok r hr
-        · exact allOk_putRecords _ _ _ _ _ hsup hreu r hr
-      · rw [hpi, hp, countInserts_append, countInserts_putRecords, hi.pi]
-    have ha1 : abs (m.appendPut a sup reuse) = sApply (abs m) (putRecords m.seq a sup reuse) := by
-      unfold Mv.Core.abs; rw [hf, hp, sApply_append]
-    have hc := addCards_skel ((m.appendPut a sup reuse).afterAppend t) a.nc (m.seq + 1)
-    refine ⟨hc.inv (afterAppend_inv _ t hi1), fun _ => ?_, fun h => by simp [Out.isAck] at h⟩
-    show abs (((m.appendPut a sup reuse).afterAppend t).addCards a.nc (m.seq + 1)) = _
-    rw [hc.abs, afterAppend_abs _ t hi1, ha1]
+  · split
+    · exact ⟨hi, fun h => by simp [Out.isAck] at h, fun _ => rfl⟩
+    · exact putTail_accept m a sup reuse t hi hsup hreu
 
 /-- marking of the predecessor, as `sApplyOne` does it for an Insert with `supersedes` -/
 def supMark (S : Spec) : Option Nat → Spec
@@ -773,6 +787,9 @@ theorem crash_sim (m : Mem) (ft : Nat) (hi : Inv m) :
   · show (({ m with queue := m.pQueue } : Mem).openFrom ft).frames.map view = _
     rw [hf, ha]
 
+theorem foldEmbs_frames (m : Mem) (e : List VecEnt) : (m.foldEmbs e).frames = m.frames := by
+  unfold Mem.foldEmbs; split <;> rfl
+
 theorem commitSkip_sim (m : Mem) (hi : Inv m) :
     Inv m.commitSkipIndexes.1 ∧ abs m.commitSkipIndexes.1 = abs m := by
   unfold Mem.commitSkipIndexes
@@ -780,13 +797,15 @@ theorem commitSkip_sim (m : Mem) (hi : Inv m) :
   · exact ⟨hi, rfl⟩
   · obtain ⟨m1, δ, h1, hv, _, _⟩ := applyRecords_view m m.pending false hi.ok
     simp only [h1]
-    constructor
-    · exact Clean.inv (m := m) ⟨hv, rfl, rfl⟩
-    · exact Clean.abs ⟨hv, rfl, rfl⟩
+    have hc : Clean ((m1.foldEmbs δ.embs).clearIndexManifests.checkpoint) m :=
+      ⟨by show (m1.foldEmbs δ.embs).frames.map view = _; rw [foldEmbs_frames]; exact hv, rfl, rfl⟩
+    exact ⟨hc.inv, hc.abs⟩
 
 theorem finalize_sim (m : Mem) (ft : Nat) (hi : Inv m) :
-    Inv (m.finalizeIndexes ft).1 ∧ abs (m.finalizeIndexes ft).1 = abs m :=
-  ⟨(rebuildIndexes_skel m [] [] ft).inv hi, (rebuildIndexes_skel m [] [] ft).abs⟩
+    Inv (m.finalizeIndexes ft).1 ∧ abs (m.finalizeIndexes ft).1 = abs m := by
+  have hs : SkelLex (m.rebuildIndexes [] [] ft).fillSketches m :=
+    SkelLex.trans (SkelLex.of_eq rfl rfl rfl) (rebuildIndexes_skel m [] [] ft)
+  exact ⟨hs.inv hi, hs.abs⟩
 
 theorem view_compact (fs : List Frame) (c : Nat) : (compact fs c).1.map view = fs.map view := by
   induction fs generalizing c with
@@ -830,7 +849,8 @@ theorem resetWal_quiet (m : Mem) (hq : Quiet m) : Quiet m.resetWal ∧ abs m.res
 theorem doctorRebuild_quiet (m : Mem) (rv : Bool) (ft : Nat) (hq : Quiet m) :
     Quiet (m.doctorRebuild rv ft) ∧ abs (m.doctorRebuild rv ft) = abs m := by
   unfold Mem.doctorRebuild
-  have hs : SkelLex ((if rv = true then { m with vecEnabled := true, vecManifest := false, vec := none, pVec := none }
+  have hs : SkelLex ((if rv = true then { m with vecEnabled := true, vecManifest := false,
+                                                 vec := if (m.vec.isNone && m.vecManifest) = true then m.pVec else m.vec }
       else if (m.vecEnabled && m.vec.isNone && m.vecManifest) = true then { m with vec := m.pVec } else m).rebuildIndexes [] [] ft) m := by
     refine SkelLex.trans (rebuildIndexes_skel _ [] [] ft) ?_
     split
@@ -844,34 +864,28 @@ theorem doctorRebuild_quiet (m : Mem) (rv : Bool) (ft : Nat) (hq : Quiet m) :
 theorem doctor_sim (m : Mem) (vac rt rl rv : Bool) (a b c d : Nat) (hi : Inv m) :
     Quiet (m.doctor vac rt rl rv a b c d).1 ∧ abs (m.doctor vac rt rl rv a b c d).1 = abs m := by
   have hd := dropHandle_inv m a hi
-  unfold Mem.doctor
-  split
-  · obtain ⟨hq0, hf0⟩ := openFrom_spec (m.dropHandle a) b hd.ok
-    have ha0 : abs ((m.dropHandle a).openFrom b) = abs m := by
-      rw [openFrom_abs _ b hd, dropHandle_abs m a hi]
-    -- stage 1
-    have h1 : Quiet (m.doctorStage1 vac a b c) ∧ abs (m.doctorStage1 vac a b c) = abs m := by
-      unfold Mem.doctorStage1
-      split
-      · exact ⟨vacuum_quiet _ b c hq0, (vacuum_sim _ b c hq0.inv).2.trans ha0⟩
-      · exact ⟨hq0, ha0⟩
-    -- stage 2
-    have h2 : Quiet ((m.doctorStage1 vac a b c).doctorStage2 (rt || rl || rv) rv c) ∧
-        abs ((m.doctorStage1 vac a b c).doctorStage2 (rt || rl || rv) rv c) = abs m := by
-      unfold Mem.doctorStage2
-      split
-      · obtain ⟨q, e⟩ := doctorRebuild_quiet _ rv c h1.1
-        exact ⟨q, e.trans h1.2⟩
-      · exact h1
-    have hd2 := dropHandle_inv _ c h2.1.inv
-    obtain ⟨hq3, hf3⟩ := openFrom_spec _ d hd2.ok
-    refine ⟨hq3, ?_⟩
-    show abs ((((m.doctorStage1 vac a b c).doctorStage2 (rt || rl || rv) rv c).dropHandle c).openFrom d) = _
-    rw [openFrom_abs _ d hd2, dropHandle_abs _ c h2.1.inv, h2.2]
-  · obtain ⟨hq, hf⟩ := openFrom_spec (m.dropHandle a) d hd.ok
-    refine ⟨hq, ?_⟩
-    show abs ((m.dropHandle a).openFrom d) = _
-    rw [openFrom_abs _ d hd, dropHandle_abs m a hi]
+  obtain ⟨hq0, hf0⟩ := openFrom_spec (m.dropHandle a) b hd.ok
+  have ha0 : abs ((m.dropHandle a).openFrom b) = abs m := by
+    rw [openFrom_abs _ b hd, dropHandle_abs m a hi]
+  -- stage 1
+  have h1 : Quiet (m.doctorStage1 vac a b c) ∧ abs (m.doctorStage1 vac a b c) = abs m := by
+    unfold Mem.doctorStage1
+    split
+    · exact ⟨vacuum_quiet _ b c hq0, (vacuum_sim _ b c hq0.inv).2.trans ha0⟩
+    · exact ⟨hq0, ha0⟩
+  -- stage 2
+  have h2 : Quiet ((m.doctorStage1 vac a b c).doctorStage2 (rt || rl || rv) rv c) ∧
+      abs ((m.doctorStage1 vac a b c).doctorStage2 (rt || rl || rv) rv c) = abs m := by
+    unfold Mem.doctorStage2
+    split
+    · obtain ⟨q, e⟩ := doctorRebuild_quiet _ rv c h1.1
+      exact ⟨q, e.trans h1.2⟩
+    · exact h1
+  have hd2 := dropHandle_inv _ c h2.1.inv
+  obtain ⟨hq3, hf3⟩ := openFrom_spec _ d hd2.ok
+  refine ⟨hq3, ?_⟩
+  show abs ((((m.doctorStage1 vac a b c).doctorStage2 (rt || rl || rv) rv c).dropHandle c).openFrom d) = _
+  rw [openFrom_abs _ d hd2, dropHandle_abs _ c h2.1.inv, h2.2]
 
 /-! ## G. The simulation theorem -/
 
